@@ -51,10 +51,11 @@ func cmdEval() {
 		var rep evalReply
 		for i := 0; i < q.Repeat; i++ {
 			out.Reset()
-			in.r = strings.NewReader(q.Stdin)
+			// a new reader per evaluation, injected as the playground does (the IO object buffers what it reads)
+			global.InjectIO(strings.NewReader(q.Stdin), &out)
 			env := global
 			if q.Fresh {
-				env = newEnv(in, &out)
+				env = newEnv(strings.NewReader(q.Stdin), &out)
 			}
 			if q.Prelude != "" && !q.Fresh {
 				pe, ok := preEnvs[q.Prelude]
